@@ -27,6 +27,8 @@ MODELS["lts_tx"] = dict(cfg="MCAgent_lts_tx.cfg", transport="udp", install=[1, 1
 ALGS = ["sha1", "sha256", "both"]
 
 
+from paircheck import pair_binding
+
 def mc_run(name):
     res = run_tlc("MCAgent.tla", "MCAgent_%s.cfg" % name, workers=4, timeout=3000)
     tlc_ok(res, "MCAgent " + name)
@@ -519,6 +521,7 @@ def run(pid, tier, seed):
             b2stats = b2(pid, tier, seed, wd, rep)
             hookstats = hook_validation(pid, tier, seed, wd, rep)
             exstats = exchange_binding(pid, tier, seed, wd, rep) if pid in ("C05", "C07", "C15") else None
+            pairstats = pair_binding(pid, tier, seed, wd, rep) if pid in ("C05", "C07", "C15", "C18") else None
             for f in pf:
                 st = f.result()
                 for props, what, replay in st.pop("findings"):
@@ -551,7 +554,7 @@ def run(pid, tier, seed):
     rep.add_cov(states=states, transitions=transitions, traces_validated_against_impl=traces, samples=samples,
                 model_checking=mcstats,
                 lts_replay=[{k: s[k] for k in ("model", "lts_states", "lts_edges", "scripts", "steps", "truncated", "nondet_scripts", "mismatches", "t")} for s in b1stats],
-                trace_validation=b2stats, hook_trace_validation=hookstats, client_server_exchange=exstats, edge_labels_driven=labels,
+                trace_validation=b2stats, hook_trace_validation=hookstats, client_server_exchange=exstats, two_agents_facing_each_other=pairstats, edge_labels_driven=labels,
                 rule="B1: every (state,input) pair of each dumped LTS (tour) + all input words to depth %d + random walks, executed on the real StunAgent under several time scales/algorithms and followed through the LTS; B2: random histories with real ms values validated by TLC against StunAgentTrace" % (3 if tier == "quick" else 4))
     rep.assumptions += ["HMAC validity is abstracted to key identity in the agent model (byte-level truth is C04)",
                         "bounded models: 2 concurrent transactions, short schedules, small clock; beyond that sampled by B2",
